@@ -79,6 +79,10 @@ type c07Case struct {
 	Max      int      `json:"max_size"`    // 0: unlimited
 	// Announce: if > 0 the last message is replaced by a bare header announcing this many value bytes
 	Announce int64 `json:"announced_length"`
+	// WrongTarget[i]: message i is received into a Go value that cannot hold it (a structure into *kmip.ResponseMessage, a scalar
+	// into a structure type), as happens to a peer that sends a response where a request is expected: Recv reports an
+	// error for it after consuming exactly its bytes, and goes on with the next message at the next call
+	WrongTarget []bool `json:"receive_into_wrong_target,omitempty"`
 }
 
 func c07Run(c c07Case) (sig string, err error) {
@@ -125,7 +129,16 @@ func c07Run(c c07Case) (sig string, err error) {
 		var v ttlv.Value
 		before := rd.pos
 		rd.maxReq = 0
-		rerr := safely(func() error { return st.Recv(&v) })
+		wrongTarget := i < len(c.WrongTarget) && c.WrongTarget[i]
+		rerr := safely(func() error {
+			if wrongTarget {
+				if len(m) > 3 && m[3] == byte(ttlvref.Structure) {
+					return st.Recv(new(kmip.ResponseMessage))
+				}
+				return st.Recv(new(kmip.ProtocolVersion))
+			}
+			return st.Recv(&v)
+		})
 		if rerr != nil && strings.HasPrefix(rerr.Error(), "panic:") {
 			return "recv-panics", fmt.Errorf("Recv of message %d panicked instead of returning a message or an error: %w", i, rerr)
 		}
@@ -146,6 +159,14 @@ func c07Run(c c07Case) (sig string, err error) {
 				return "truncated-yields-message", fmt.Errorf("stream ends %d bytes into message %d but Recv returned a message", len(stream)-off, i)
 			}
 			return recheck()
+		}
+		if wrongTarget {
+			// whatever Recv says about a message its target cannot hold, the message is consumed, and only it
+			if rd.pos != end {
+				return "consumed-wrong-amount", fmt.Errorf("message %d was received into a target that cannot hold it (Recv: %v): the receiver consumed %d bytes of the stream, the message ends at %d", i, rerr, rd.pos, end)
+			}
+			off = end
+			continue
 		}
 		if rerr != nil {
 			return "complete-message-rejected:" + errKind(rerr), fmt.Errorf("message %d (%d bytes, stream offset %d): %w", i, len(m), off, rerr)
@@ -255,6 +276,13 @@ func drawC07(rt *rapid.T) (c07Case, bool, []string) {
 		labels = append(labels, "plan=random")
 	}
 	c.EOFWith = rapid.IntRange(0, 3).Draw(rt, "eofwith") == 0
+	if nmsg > 1 && rapid.IntRange(0, 3).Draw(rt, "wrongtargets") == 0 {
+		c.WrongTarget = make([]bool, nmsg)
+		for i := 0; i < nmsg-1; i++ {
+			c.WrongTarget[i] = rapid.Bool().Draw(rt, "wrongtarget")
+		}
+		labels = append(labels, "wrong-target-then-more")
+	}
 	nt := len(c.Plan) != 1 || c.Plan[0] != 1<<30
 	switch rapid.IntRange(0, 7).Draw(rt, "special") {
 	case 0, 1: // truncation
@@ -310,7 +338,7 @@ func drawC07(rt *rapid.T) (c07Case, bool, []string) {
 func TestC07Framing(t *testing.T) {
 	const name = "TestC07Framing"
 	rec := evid.New("C07", name, "sequences of 1..5 messages (generic trees, KMIP requests, sizes 8 B..320 KiB biased around the 512-byte initial buffer and the limit) x read plans "+
-		"(1-byte, fixed small, random chunk lists spanning boundaries, fully coalesced, last bytes delivered together with io.EOF) x truncation offsets x announced lengths around max in {64,4096,1MiB}; oracle: each message equals the sent one when returned and still does after all later Recv calls, exact consumption, clean errors (no panic); "+
+		"(1-byte, fixed small, random chunk lists spanning boundaries, fully coalesced, last bytes delivered together with io.EOF) x truncation offsets x announced lengths around max in {64,4096,1MiB}; some messages received into a Go value that cannot hold them (the following ones must still arrive); oracle: each message equals the sent one when returned and still does after all later Recv calls, exact consumption, clean errors (no panic); "+
 		"non-trivial = reads are split (not fully coalesced) or the case is a truncation / size-limit case; distinct by case JSON").Attach(t)
 	if rp := evid.LoadReplay(name); rp != nil {
 		var c c07Case
